@@ -332,8 +332,13 @@ def gen_cases(ctx):
     for n in (8, 9, 16, 40):
         m = {}
         while len(m) < n:
-            m["".join(rng.choice("abcXYZé_0") for _ in range(rng.randint(0, 4))).encode()] = ("i", len(m))
+            m["".join(rng.choice("abcABCé_0") for _ in range(rng.randint(0, 4))).encode()] = ("i", len(m))
         cases.append((("M", ("int", "i")), ("M", m)))
+    # keys that differ only in letter case, in a prefix, in a trailing NUL / space, or that are equal after Unicode
+    # normalisation: any collation other than the raw byte order makes some of them tie
+    for ks in ([b"id", b"ID", b"Id", b"iD"], [b"ETag", b"etag", b"ETAG"], [b"a", b"A", b"b", b"B", b"aa", b"aA", b"Aa", b"AA"],
+               [b"k", b"k\x00", b"k ", b"K"], ["é".encode(), "e\u0301".encode(), "É".encode(), b"e"]):
+        cases.append((("M", ("int", "i")), ("M", {k: ("i", i) for i, k in enumerate(ks)})))
     return cases
 
 
@@ -442,14 +447,16 @@ def run(ctx):
     ctx.correspond("K11-marshal", lines, oracle=oracle, classify=classify_case,
                    nontrivial=lambda ln, m: m not in ("badinput", "illtyped"))
     # MarshalText determinism: the same value marshalled repeatedly (maps iterate in random order)
-    det = ["marshal_text " + " ".join(ty_tokens(t) + gv_tokens(g)) for t, g in cases if mg.contains(t, ("M", "I"))][:ctx.scale(400, 4000)]
-    outs = [run_go(det) for _ in range(3)]
+    det = ["marshal_text " + " ".join(ty_tokens(t) + gv_tokens(g)) for t, g in cases if mg.contains(t, ("M", "I"))]
+    # the maps with many / near-equal keys come last in `cases`: keep them when the list is cut
+    det = det[-40:] + det[:-40][:ctx.scale(400, 4000)]
+    outs = [run_go(det) for _ in range(4)]
     bad = 0
     for i, ln in enumerate(det):
         if len({o[i] for o in outs}) != 1:
             bad += 1
             ctx.fail("property", "K11-determinism", ln, "MarshalText gave different bytes on repeated calls: %s" % [o[i][:80] for o in outs])
-    ctx.count("K11-determinism", len(det) * 3, det, sample=det[0] if det else None, nondeterministic=bad)
+    ctx.count("K11-determinism", len(det) * 4, det, sample=det[0] if det else None, nondeterministic=bad)
     # time.Time: Go only, judged on the printed value (instant + zone offset survive; precision becomes nanoseconds)
     tl = []
     for _ in range(ctx.scale(60, 600)):
